@@ -20,6 +20,23 @@ type Sorts struct {
 	tagOrder      []string
 	boxDecl       map[string]bool
 	extraDecls    []string
+	zeroArrays    map[string]*T // element sort -> zero term
+}
+
+func isValueTerm(t *T) bool {
+	if t.Args != nil {
+		return false
+	}
+	switch t.Op {
+	case "true", "false":
+		return true
+	}
+	for _, c := range t.Op {
+		if c < '0' || c > '9' {
+			return false
+		}
+	}
+	return true
 }
 
 type SInfo struct {
@@ -38,7 +55,7 @@ type SField struct {
 
 func NewSorts() *Sorts {
 	return &Sorts{declared: map[string]bool{}, structs: map[string]*SInfo{}, opaque: map[string]bool{},
-		fieldAccessed: map[string]bool{}, typeTags: map[string]int{}, boxDecl: map[string]bool{}}
+		fieldAccessed: map[string]bool{}, typeTags: map[string]int{}, boxDecl: map[string]bool{}, zeroArrays: map[string]*T{}}
 }
 
 func typeName(t types.Type) string {
@@ -202,7 +219,14 @@ func (s *Sorts) ZeroSort(sort string, t types.Type) *T {
 				et = a.Elem()
 			}
 		}
-		return A("(as const "+sort+")", s.ZeroSort(el, et))
+		z := s.ZeroSort(el, et)
+		if isValueTerm(z) {
+			return A("(as const "+sort+")", z)
+		}
+		// cvc5 only accepts values in constant arrays: use a declared
+		// all-zero array (axiomatised in the query header)
+		s.zeroArrays[el] = z
+		return L("zeroarr." + symSafe(el))
 	}
 	if s.opaque[sort] {
 		return L("zero." + sort)
